@@ -481,7 +481,10 @@ pub fn encode_with_dist_header_multi(terms: &[&OwnedTerm]) -> Result<Vec<u8>, En
 
     let long_atoms = atoms.iter().any(|a| a.name.len() > 255);
     if long_atoms {
-        buf[flags_start_pos + flags_len - 1] |= 0x01;
+        // The LongAtoms bit lives in the half byte that follows the references' half bytes:
+        // the low half of the last flag byte for an even count, the high half for an odd one.
+        let long_atoms_bit = if atoms.len() % 2 == 0 { 0x01 } else { 0x10 };
+        buf[flags_start_pos + flags_len - 1] |= long_atoms_bit;
     }
 
     for (index, atom) in atoms.iter().enumerate() {
